@@ -50,17 +50,31 @@ Proof.
   unfold m_pos. pose proof (match_int_ok s) as H. destruct (a_match_int false s) as [[v|] s1]; [|discriminate].
   destruct H as [_ H]. destruct ((0 <=? v) && (v <=? max)); [|discriminate]. intros E. injection E as _ <-. apply H. congruence.
 Qed.
+(* ================= generic in the reader's atom limit vm <= atomMax (ProgramReader::setMaxVar); the statements without a limit
+   (vm = sm_varMax = atomMax), which C04 uses, follow behind the section ================= *)
+Section MaxVar.
+Variable vm : Z.
+Hypothesis Hvm : vm <= atomMax.
+Local Notation m_atom := (m_atom_v vm).
+Local Notation m_body := (m_body_v vm).
+Local Notation m_sum := (m_sum_v vm).
+Local Notation read_rule := (read_rule_v vm).
+Local Notation read_rules := (read_rules_v vm).
+Local Notation do_parse := (do_parse_v vm).
+Local Notation parse_steps := (parse_steps_v vm).
+Local Notation read_smodels := (read_smodels_v vm).
+
 Lemma good_atom s : good (fun x => atom_ok x = true) s (m_atom s).
 Proof.
-  unfold m_atom. pose proof (match_int_ok s) as H. destruct (a_match_int false s) as [[x|] s']; destruct H as [H _].
-  - destruct ((atomMin <=? x) && (x <=? sm_varMax)) eqn:E; cbn [good fst snd]; [|apply here_ok; exact H].
-    split; [|exact H]. unfold atom_ok, ATOM_MAX, atomMin, sm_varMax in *. lia.
+  unfold m_atom_v. pose proof (match_int_ok s) as H. destruct (a_match_int false s) as [[x|] s']; destruct H as [H _].
+  - destruct ((atomMin <=? x) && (x <=? vm)) eqn:E; cbn [good fst snd]; [|apply here_ok; exact H].
+    split; [|exact H]. unfold atom_ok, ATOM_MAX, atomMin in *. unfold atomMax in Hvm. lia.
   - cbn [good]. apply here_ok. exact H.
 Qed.
 Lemma atom_strict s x s' : m_atom s = Ok (x, s') -> shorter s' s.
 Proof.
-  unfold m_atom. pose proof (match_int_ok s) as H. destruct (a_match_int false s) as [[v|] s1]; [|discriminate].
-  destruct H as [_ H]. destruct ((atomMin <=? v) && (v <=? sm_varMax)); [|discriminate]. intros E. injection E as _ <-. apply H. congruence.
+  unfold m_atom_v. pose proof (match_int_ok s) as H. destruct (a_match_int false s) as [[v|] s1]; [|discriminate].
+  destruct H as [_ H]. destruct ((atomMin <=? v) && (v <=? vm)); [|discriminate]. intros E. injection E as _ <-. apply H. congruence.
 Qed.
 
 Lemma wrap32s_small w : 0 <= w <= 2147483647 -> wrap32s w = w.
@@ -112,7 +126,7 @@ Qed.
 (* ---- bodies ---- *)
 Lemma good_body s : good (fun b => forallb lit_ok b = true) s (m_body s).
 Proof.
-  unfold m_body.
+  unfold m_body_v.
   eapply good_bind; [apply good_pos|]. intros len s1 _ H1. cbv beta iota.
   eapply good_bind; [apply good_pos|]. intros neg s2 _ H2. cbv beta iota.
   apply good_require. intros _.
@@ -134,7 +148,7 @@ Qed.
 Definition sum_ok (r : Z * list (Z * Z)) : Prop := int_ok (fst r) = true /\ forallb (wlit_ok true) (snd r) = true.
 Lemma good_sum weights s : good sum_ok s (m_sum weights s).
 Proof.
-  unfold m_sum.
+  unfold m_sum_v.
   eapply good_bind; [apply good_pos|]. intros a s1 _ H1. cbv beta iota.
   eapply good_bind; [apply good_pos|]. intros b s2 _ H2. cbv beta iota.
   eapply good_bind; [apply good_pos|]. intros c s3 _ H3. cbv beta iota.
@@ -173,7 +187,7 @@ Definition rule_ok (B prio : Z) (r : list call * Z) : Prop := Forall (dirB B) (f
 
 Lemma read_rule_ok B o prio rt s : 0 <= prio <= B -> good (rule_ok B prio) s (read_rule o prio rt s).
 Proof.
-  intros Hp. unfold read_rule.
+  intros Hp. unfold read_rule_v.
   destruct ((rt =? Sm_Choice) || (rt =? Sm_Disjunctive)).
   { eapply good_bind; [apply good_atom|]. intros n s1 _ H1. cbv beta iota.
     eapply good_bind; [apply good_atoms|]. intros hs s2 Hhs H2. cbv beta iota.
@@ -278,7 +292,7 @@ Definition at2s (s : ast) : Z -> ast -> Prop := fun k s' => k = 2 /\ step_ok s s
 Lemma read_rules_ok B o : forall fuel prio s, (length (rest s) < fuel)%nat -> 0 <= prio -> prio + Z.of_nat (length (rest s)) <= B ->
   cgood B 2 s (at2s s) (read_rules fuel o prio s).
 Proof.
-  induction fuel as [|fu IH]; intros prio s Hl Hp HB; [lia|]. cbn [read_rules].
+  induction fuel as [|fu IH]; intros prio s Hl Hp HB; [lia|]. cbn [read_rules_v].
   pose proof (good_pos sm_rt_max s) as G. pose proof (pos_strict sm_rt_max s) as S1.
   destruct (m_pos sm_rt_max s) as [[rt s1]|ln|]; cbn [good fst snd] in G; [|apply cgood_of_err; exact G|contradiction].
   destruct G as [_ H1]. specialize (S1 rt s1 eq_refl). unfold shorter in S1.
@@ -399,7 +413,7 @@ Definition at1s (s : ast) : Z -> ast -> Prop := fun k s' => k = 1 /\ step_ok s s
 
 Lemma do_parse_ok B o s : Z.of_nat (length (rest s)) <= B -> cgood B 1 s (at1s s) (do_parse o s).
 Proof.
-  intros HB. unfold do_parse.
+  intros HB. unfold do_parse_v.
   eapply (cgood_bind B 1 s (fun k a => k = 2 /\ a = s)); [unfold cgood; cbn; repeat split|].
   intros k0 s0 (-> & ->). exists s. split; [apply step_ok_refl|].
   eapply cgood_bind; [apply read_rules_ok; [unfold fuel_of; lia | lia | lia]|].
@@ -420,7 +434,7 @@ Qed.
 Lemma parse_steps_ok B o inc : forall fuel s, (length (rest s) < fuel)%nat -> Z.of_nat (length (rest s)) <= B ->
   cgood B 1 s (fun k (_ : unit) => k = 1) (parse_steps fuel o inc s).
 Proof.
-  induction fuel as [|fu IH]; intros s Hl HB; [lia|]. cbn [parse_steps].
+  induction fuel as [|fu IH]; intros s Hl HB; [lia|]. cbn [parse_steps_v].
   eapply cgood_bind; [apply do_parse_ok; exact HB|].
   intros k1 s1 (-> & H1 & S1). pose proof (skipws_ok s1) as H2. set (s2 := a_skipws s1) in *.
   exists s2. split; [eapply step_ok_trans; eassumption|]. unfold shorter in S1.
@@ -433,9 +447,9 @@ Proof.
 Qed.
 
 (* ================= the whole reader, for every byte list ================= *)
-Theorem reader_shape o t : cgood (Z.of_nat (length t)) 0 (a_init t) (fun k (_ : unit) => k = 1) (read_smodels o t).
+Theorem reader_shape_v o t : cgood (Z.of_nat (length t)) 0 (a_init t) (fun k (_ : unit) => k = 1) (read_smodels o t).
 Proof.
-  unfold read_smodels. set (s := a_init t).
+  unfold read_smodels_v. set (s := a_init t).
   destruct (is_digit (a_peek s) && (negb (a_peek s =? 57) || claspExt o)); [|apply cgood_err].
   eapply (cgood_bind _ 0 s (fun k a => k = 1 /\ a = s)); [unfold cgood; cbn; repeat split|].
   intros k0 s0 (-> & ->). exists s. split; [apply step_ok_refl|].
@@ -444,39 +458,39 @@ Qed.
 
 (* (a) the delivered calls: order and ranges, unconditionally; the priority of a minimize is the number of optimize
    statements read before it in the step, hence at most the length of the input *)
-Theorem delivered_ok o t :
+Theorem delivered_ok_v o t :
   protocol_ok 0 (fst (read_smodels o t)) = true /\ forallb (call_okB (Z.of_nat (length t))) (fst (read_smodels o t)) = true.
 Proof.
-  pose proof (reader_shape o t) as H. unfold cgood in H. destruct (snd (read_smodels o t)); [| |contradiction]; destruct H as (H1 & H2 & _); auto.
+  pose proof (reader_shape_v o t) as H. unfold cgood in H. destruct (snd (read_smodels o t)); [| |contradiction]; destruct H as (H1 & H2 & _); auto.
 Qed.
 
-Theorem reader_contract o t : Z.of_nat (length t) < 2 ^ 31 -> contract_ok (fst (read_smodels o t)) = true.
+Theorem reader_contract_v o t : Z.of_nat (length t) < 2 ^ 31 -> contract_ok (fst (read_smodels o t)) = true.
 Proof.
-  intros Hlen. destruct (delivered_ok o t) as [H1 H2]. unfold contract_ok. rewrite H1. cbn [andb].
+  intros Hlen. destruct (delivered_ok_v o t) as [H1 H2]. unfold contract_ok. rewrite H1. cbn [andb].
   rewrite forallb_forall in *. intros c Hc. apply (call_okB_ok (Z.of_nat (length t))); [lia | apply H2; exact Hc].
 Qed.
 
 (* (b) an accepted input leaves no step open *)
-Theorem reader_steps_closed o t u : snd (read_smodels o t) = Ok u -> steps_closed (fst (read_smodels o t)) = true.
+Theorem reader_steps_closed_v o t u : snd (read_smodels o t) = Ok u -> steps_closed (fst (read_smodels o t)) = true.
 Proof.
-  intros E. pose proof (reader_shape o t) as H. unfold cgood in H. rewrite E in H. destruct H as (_ & _ & H).
+  intros E. pose proof (reader_shape_v o t) as H. unfold cgood in H. rewrite E in H. destruct H as (_ & _ & H).
   unfold steps_closed. rewrite H. reflexivity.
 Qed.
 
 (* (c) no loop of the model runs out of fuel *)
-Theorem no_fuel_exhaustion o t : snd (read_smodels o t) <> Fuel.
-Proof. intros E. pose proof (reader_shape o t) as H. unfold cgood in H. rewrite E in H. exact H. Qed.
+Theorem no_fuel_exhaustion_v o t : snd (read_smodels o t) <> Fuel.
+Proof. intros E. pose proof (reader_shape_v o t) as H. unfold cgood in H. rewrite E in H. exact H. Qed.
 
 (* a reported line lies inside the text *)
-Theorem line_bound o t ln : snd (read_smodels o t) = Err ln -> 1 <= ln <= lines t.
+Theorem line_bound_v o t ln : snd (read_smodels o t) = Err ln -> 1 <= ln <= lines t.
 Proof.
-  intros E. pose proof (reader_shape o t) as H. unfold cgood in H. rewrite E in H. destruct H as (_ & _ & H).
+  intros E. pose proof (reader_shape_v o t) as H. unfold cgood in H. rewrite E in H. destruct H as (_ & _ & H).
   unfold pot, lines, a_init in *. cbn [aline rest] in H. exact H.
 Qed.
 
 (* the same without the auxiliary predicate: every clause of call_ok holds unconditionally, except that the priority of a
    minimize is only known to lie in 0 .. |t| *)
-Theorem delivered_calls o t :
+Theorem delivered_calls_v o t :
   protocol_ok 0 (fst (read_smodels o t)) = true /\
   (forall c, In c (fst (read_smodels o t)) ->
      match c with
@@ -484,6 +498,31 @@ Theorem delivered_calls o t :
      | _ => call_ok c = true
      end).
 Proof.
-  destruct (delivered_ok o t) as [H1 H2]. split; [exact H1|]. intros c Hc. rewrite forallb_forall in H2. specialize (H2 c Hc).
+  destruct (delivered_ok_v o t) as [H1 H2]. split; [exact H1|]. intros c Hc. rewrite forallb_forall in H2. specialize (H2 c Hc).
   destruct c; cbn [call_okB] in H2; try exact H2. split; lia.
 Qed.
+End MaxVar.
+
+(* ---- the instance without a limit (vm = sm_varMax = atomMax), by conversion ---- *)
+Lemma varMax_le_atomMax : sm_varMax <= atomMax. Proof. unfold sm_varMax, atomMax. lia. Qed.
+Theorem reader_shape o t : cgood (Z.of_nat (length t)) 0 (a_init t) (fun k (_ : unit) => k = 1) (read_smodels o t).
+Proof. exact (reader_shape_v sm_varMax varMax_le_atomMax o t). Qed.
+Theorem delivered_ok o t :
+  protocol_ok 0 (fst (read_smodels o t)) = true /\ forallb (call_okB (Z.of_nat (length t))) (fst (read_smodels o t)) = true.
+Proof. exact (delivered_ok_v sm_varMax varMax_le_atomMax o t). Qed.
+Theorem reader_contract o t : Z.of_nat (length t) < 2 ^ 31 -> contract_ok (fst (read_smodels o t)) = true.
+Proof. exact (reader_contract_v sm_varMax varMax_le_atomMax o t). Qed.
+Theorem reader_steps_closed o t u : snd (read_smodels o t) = Ok u -> steps_closed (fst (read_smodels o t)) = true.
+Proof. exact (reader_steps_closed_v sm_varMax varMax_le_atomMax o t u). Qed.
+Theorem no_fuel_exhaustion o t : snd (read_smodels o t) <> Fuel.
+Proof. exact (no_fuel_exhaustion_v sm_varMax varMax_le_atomMax o t). Qed.
+Theorem line_bound o t ln : snd (read_smodels o t) = Err ln -> 1 <= ln <= lines t.
+Proof. exact (line_bound_v sm_varMax varMax_le_atomMax o t ln). Qed.
+Theorem delivered_calls o t :
+  protocol_ok 0 (fst (read_smodels o t)) = true /\
+  (forall c, In c (fst (read_smodels o t)) ->
+     match c with
+     | CMin p l => 0 <= p <= Z.of_nat (length t) /\ forallb (wlit_ok false) l = true
+     | _ => call_ok c = true
+     end).
+Proof. exact (delivered_calls_v sm_varMax varMax_le_atomMax o t). Qed.
